@@ -175,7 +175,7 @@ Definition CntB (d : dict) cs (n : N) : Prop := forall x, dcnt d cs x <= n.
 
 (* ---- lydict_insert ---- *)
 Theorem lydict_insert_spec d cs fl s n :
-  DRep d cs fl -> Bnd (abs dvdef d cs) n -> CntB d cs n -> 4 * n <= 16777216 ->
+  DRep d cs fl -> Bnd (abs dvdef d cs) n -> CntB d cs n -> 4 * n <= 1073741824 ->
   exists d' cs' fl', lydict_insert d s = Ok (LY_ERR_SUCCESS, s, d') /\ DRep d' cs' fl' /\
     Bnd (abs dvdef d' cs') (n + 1) /\
     forall x, dcnt d' cs' x = if beq_bytes x s then dcnt d cs x + 1 else dcnt d cs x.
@@ -287,7 +287,7 @@ Qed.
 
 (* ---- lydict_remove ---- *)
 Theorem lydict_remove_spec d cs fl s n :
-  DRep d cs fl -> Bnd (abs dvdef d cs) n -> 4 * n <= 33554432 ->
+  DRep d cs fl -> Bnd (abs dvdef d cs) n -> 4 * n <= 2147483648 ->
   (dcnt d cs s = 0 /\ lydict_remove d s = Ok (LY_ERR_ENOTFOUND, d)) \/
   (dcnt d cs s <> 0 /\ exists d' cs' fl', lydict_remove d s = Ok (LY_ERR_SUCCESS, d') /\ DRep d' cs' fl' /\
      Bnd (abs dvdef d' cs') n /\
@@ -390,7 +390,7 @@ Proof. unfold Bnd. lia. Qed.
 
 Lemma dict_step_spec d cs fl o n f :
   DRep d cs fl -> (forall x, dcnt d cs x = f x) -> Bnd (abs dvdef d cs) n -> CntB d cs n ->
-  4 * n <= 16777216 ->
+  4 * n <= 1073741824 ->
   exists d' cs' fl', dict_step d o = Ok (fst (sstep f o), d') /\ DRep d' cs' fl' /\
     (forall x, dcnt d' cs' x = snd (sstep f o) x) /\ Bnd (abs dvdef d' cs') (n + 1) /\ CntB d' cs' (n + 1).
 Proof.
@@ -429,7 +429,7 @@ Qed.
 
 Theorem dict_run_spec : forall ops d cs fl acc n f,
   DRep d cs fl -> (forall x, dcnt d cs x = f x) -> Bnd (abs dvdef d cs) n -> CntB d cs n ->
-  4 * (n + N.of_nat (length ops)) <= 16777216 ->
+  4 * (n + N.of_nat (length ops)) <= 1073741824 ->
   exists d' cs' fl', dict_run d ops acc = (fst (srun f ops acc), Ok d') /\ DRep d' cs' fl' /\
     forall x, dcnt d' cs' x = snd (srun f ops acc) x.
 Proof.
@@ -442,16 +442,16 @@ Proof.
 Qed.
 
 (* ---- the empty dictionary ---- *)
-Lemma lydict_init_DRep k : k <= 20 ->
+Lemma lydict_init_DRep k : k <= 26 ->
   let d0 := init_tab dvdef (new_sz k) 1 in
   let cs0 := repeat [] (N.to_nat (new_sz k)) in
   lyht_new dvdef (2 ^ k) 1 = Ok d0 /\ DRep d0 cs0 (map N.of_nat (seq 0 (N.to_nat (new_sz k)))) /\
-  (forall x, dcnt d0 cs0 x = 0) /\ Bnd (abs dvdef d0 cs0) (new_sz k) /\ new_sz k <= 1048576.
+  (forall x, dcnt d0 cs0 x = 0) /\ Bnd (abs dvdef d0 cs0) (new_sz k) /\ new_sz k <= 67108864.
 Proof.
   intros Hk d0 cs0. destruct (lyht_new_Rep dvdef dveq k 1 ltac:(lia) ltac:(lia)) as (E & R & A).
   fold d0 cs0 in R, A. destruct (AShape_empty dval dveq 1 (new_sz k) (new_sz_ok k ltac:(lia))) as (S & Hs & Hu).
-  assert (Hle : new_sz k <= 1048576).
-  { unfold new_sz, LYHT_MIN_SIZE. destruct (2 ^ k <? 8); [lia|]. change 1048576 with (2 ^ 20).
+  assert (Hle : new_sz k <= 67108864).
+  { unfold new_sz, LYHT_MIN_SIZE. destruct (2 ^ k <? 8); [lia|]. change 67108864 with (2 ^ 26).
     apply N.pow_le_mono_r; lia. }
   split; [exact E|]. split; [|split; [|split; [|exact Hle]]].
   - split; [exact R|]. rewrite A. split; [exact S|]. split.
@@ -465,7 +465,7 @@ Qed.
 
 (* references balance: from the empty dictionary every script runs to completion, answers as the
    finite map does, and ends holding exactly the finite map *)
-Theorem dict_refs_balance k ops : k <= 20 -> N.of_nat (length ops) <= 3145728 ->
+Theorem dict_refs_balance k ops : k <= 26 -> N.of_nat (length ops) <= 201326592 ->
   exists d' cs' fl',
     dict_run (init_tab dvdef (new_sz k) 1) ops [] = (fst (srun (fun _ => 0) ops []), Ok d') /\
     DRep d' cs' fl' /\ forall x, dcnt d' cs' x = snd (srun (fun _ => 0) ops []) x.
@@ -532,7 +532,7 @@ Lemma lydict_init_eq : lydict_init 0 = lyht_new dvdef (2 ^ 10) 1.
 Proof. reflexivity. Qed.
 
 (* after releasing every reference taken the table holds no record *)
-Theorem dict_release_all_empty k ops : k <= 20 -> N.of_nat (length ops) <= 3145728 ->
+Theorem dict_release_all_empty k ops : k <= 26 -> N.of_nat (length ops) <= 201326592 ->
   (forall x, snd (srun (fun _ => 0) ops []) x = 0) ->
   exists d', dict_run (init_tab dvdef (new_sz k) 1) ops [] = (fst (srun (fun _ => 0) ops []), Ok d') /\
              ht_used d' = 0.
@@ -542,7 +542,7 @@ Proof.
 Qed.
 
 (* lydict_remove of a string that is not held: LY_ENOTFOUND, nothing changes *)
-Theorem dict_remove_not_held d cs fl s n : DRep d cs fl -> Bnd (abs dvdef d cs) n -> 4 * n <= 33554432 ->
+Theorem dict_remove_not_held d cs fl s n : DRep d cs fl -> Bnd (abs dvdef d cs) n -> 4 * n <= 2147483648 ->
   dcnt d cs s = 0 -> lydict_remove d s = Ok (LY_ERR_ENOTFOUND, d).
 Proof.
   intros HR HB Hn H0. destruct (lydict_remove_spec d cs fl s n HR HB Hn) as [(_ & E)|(H1 & _)]; [exact E|contradiction].
